@@ -683,6 +683,7 @@ func (cl *c18Client) do(p *vfProxy, step string, req *vfReq) *vfResp {
 		cl.run.Inconclusive("panic in " + step)
 		return resp
 	}
+	cl.run.Count(fmt.Sprintf("responses_status_%d", resp.Code), 1)
 	eff := c18EffectiveHost(cl.cfg, cl.h)
 	deletedFam := map[string]bool{}
 	for _, raw := range resp.SetCookies() {
@@ -808,6 +809,51 @@ func (f *c18Flow) identity(large bool) vfIdentity {
 	return id
 }
 
+// c18StaleCSRFVariants: ways in which the CSRF cookie a browser returns can have stopped validating.
+var c18StaleCSRFVariants = []struct {
+	name string
+	mut  func(v string) string
+}{
+	{"tampered-payload", func(v string) string {
+		b := []byte(v)
+		if len(b) > 8 {
+			if b[5] == 'A' {
+				b[5] = 'B'
+			} else {
+				b[5] = 'A'
+			}
+		}
+		return string(b)
+	}},
+	{"tampered-signature", func(v string) string {
+		b := []byte(v)
+		if k := len(b) - 6; k > 0 {
+			if b[k] == 'A' {
+				b[k] = 'B'
+			} else {
+				b[k] = 'A'
+			}
+		}
+		return string(b)
+	}},
+	{"expired-stamp", func(v string) string { // signed value = payload|unix seconds|signature: an old stamp (the signature then fails too)
+		parts := strings.Split(v, "|")
+		if len(parts) == 3 {
+			parts[1] = "1000000000"
+			return strings.Join(parts, "|")
+		}
+		return v + "x"
+	}},
+	{"truncated", func(v string) string {
+		if len(v) > 12 {
+			return v[:12]
+		}
+		return "x"
+	}},
+	{"garbage", func(v string) string { return "AAAA|1|BBBB" }},
+	{"emptied", func(v string) string { return "" }},
+}
+
 // phase1: everything up to established sessions.
 func (f *c18Flow) phase1() {
 	cfg, p := f.cfg, f.cfg.P
@@ -829,6 +875,38 @@ func (f *c18Flow) phase1() {
 			if k := strings.IndexByte(st, ':'); k >= 0 {
 				forged = "AAAAAAAAAAAAAAAAAAAAAAAAAAAAAAAAAAAAAAAAAAA" + st[k:]
 			}
+			// callbacks that fail on the CSRF cookie itself: the state decodes and names the cookie the browser holds, but the
+			// cookie no longer validates (tampered payload / signature, truncated, garbage, emptied, stamped as expired); the
+			// cookie is missing altogether; the state does not decode. The code is never redeemed on these paths, so it is reused.
+			cb := cfg.Prefix + "/callback?code=" + vfQueryEscape(code) + "&state="
+			for _, v := range c18StaleCSRFVariants {
+				sc := bad.clone()
+				n := 0
+				for _, h := range sc.held {
+					if h.Kind == "csrf" {
+						h.Value = v.mut(h.Value)
+						n++
+					}
+				}
+				if n == 0 {
+					break
+				}
+				r := sc.do(p, "callback-stale-csrf-cookie/"+v.name, vfGET(cb+vfQueryEscape(st)))
+				if r.Code != 302 {
+					f.run.Count("scenario_failing_callback_stale_csrf", 1)
+				}
+				// the browser tries again: whatever the error response did to its cookies must not be mis-addressed
+				sc.do(p, "callback-stale-csrf-cookie/"+v.name+"/retry", vfGET(cb+vfQueryEscape(st)))
+			}
+			c18NewClient(f.run, cfg, f.h).do(p, "callback-without-csrf-cookie", vfGET(cb+vfQueryEscape(st)))
+			f.run.Count("scenario_failing_callback_missing_csrf", 1)
+			for i, badState := range []string{"", "no-colon-here", "%zz", strings.Repeat("A", 43)} {
+				bad.clone().do(p, fmt.Sprintf("callback-bad-state-%d", i), vfGET(cb+badState))
+				f.run.Count("scenario_failing_callback_bad_state", 1)
+			}
+			bad.clone().do(p, "callback-without-code", vfGET(cfg.Prefix+"/callback?state="+vfQueryEscape(st)))
+			bad.clone().do(p, "callback-post", vfNewReq("POST", cb+vfQueryEscape(st)))
+			// last (it redeems the code and, with a fixed CSRF cookie name, deletes the CSRF cookie): valid code under a foreign state
 			bad.do(p, "callback-foreign-state", vfGET(cfg.Prefix+"/callback?code="+vfQueryEscape(code)+"&state="+vfQueryEscape(forged)))
 		}
 	}
@@ -954,6 +1032,21 @@ func (f *c18Flow) phase2() {
 				f.run.Count("scenario_relogin_expires_stale_parts", 1)
 			} else {
 				f.run.Count("relogin_left_stale_parts", 1) // C10's concern; recorded
+			}
+		}
+	}
+	// a signed-in browser running into failing callbacks (stale CSRF cookie from an abandoned login, provider error)
+	{
+		z := f.a.clone()
+		if r := z.do(p, "signed-in/start", vfGET(cfg.Prefix+"/start?rd="+vfQueryEscape(f.target("/again")))); r.Code == 302 {
+			if code, ar, err := f.w.IdP.Authorize(r.Location(), f.identity(false)); err == nil {
+				for _, h := range z.held {
+					if h.Kind == "csrf" {
+						h.Value = c18StaleCSRFVariants[(cfg.ID+len(f.h.Host))%len(c18StaleCSRFVariants)].mut(h.Value)
+					}
+				}
+				z.do(p, "signed-in/callback-stale-csrf-cookie", vfGET(cfg.Prefix+"/callback?code="+vfQueryEscape(code)+"&state="+vfQueryEscape(ar.Params.Get("state"))))
+				z.do(p, "signed-in/callback-provider-error", vfGET(cfg.Prefix+"/callback?error=server_error&state="+vfQueryEscape(ar.Params.Get("state"))))
 			}
 		}
 	}
@@ -1158,7 +1251,7 @@ func c18RefSelfTest(t *testing.T) {
 
 func TestVerif_C18(t *testing.T) {
 	run := vfNewRun(t, "C18", "exploration")
-	run.SetRule("every raw Set-Cookie line of every response of the scenario library (unauthenticated visit, sign-in page, start, failed callbacks, callback success, split session, htpasswd form login, " +
+	run.SetRule("every raw Set-Cookie line of every response of the scenario library (unauthenticated visit, sign-in page, start, failing callbacks {provider error, bogus code, foreign state, CSRF cookie tampered / re-stamped / truncated / garbage / emptied / missing, undecodable state, no code, POST} for anonymous and signed-in browsers, callback success, split session, htpasswd form login, " +
 		"concurrent logins / per-request CSRF, refresh re-issue, tampered-cookie clearing, authorisation-failure clearing on a second instance, sign-out) under cookie-option configurations " +
 		"(covering array in quick: all triples of {secure, httponly, samesite, path, domain set, name length, store} and all pairs with {csrf-per-request, reverse-proxy, csrf-expire, expire, skip-provider-button, a cookie domain listed more than once}; full product of {secure, httponly, samesite, path, domain set, name length, store} in thorough) x request hosts {exact, sub, deep, deeper, unrelated, look-alike, IP} x {no port, port} x {Host, X-Forwarded-Host in reverse-proxy mode, X-Forwarded-Host with reverse-proxy off}. " +
 		"plus a split-threshold boundary sweep (SaveSession with every token length in [first split length-160, +8] under configurations with long Domain/Path attributes and long names). " +
@@ -1264,7 +1357,7 @@ func TestVerif_C18(t *testing.T) {
 	run.Extra("flows", flows)
 	run.Extra("domain_reading", "port ignored (longest configured domain that is a suffix of the request host without its port)")
 	// the monitor must have seen every kind of cookie it guards
-	need := []string{"boundary_saves", "lines_csrf", "lines_csrf_deletion", "lines_session", "lines_session_deletion", "lines_split", "lines_split_deletion", "lines_ticket", "lines_ticket_deletion",
+	need := []string{"boundary_saves", "scenario_failing_callback_stale_csrf", "scenario_failing_callback_missing_csrf", "scenario_failing_callback_bad_state", "responses_status_403", "responses_status_500", "lines_csrf", "lines_csrf_deletion", "lines_session", "lines_session_deletion", "lines_split", "lines_split_deletion", "lines_ticket", "lines_ticket_deletion",
 		"scenario_refresh_reissue", "scenario_refresh_reissue_large", "scenario_load_error_clearing", "scenario_authorisation_failure_clearing", "scenario_sign_out", "scenario_sign_out_large",
 		"scenario_htpasswd_login", "scenario_relogin_expires_stale_parts", "domain_rule_longest", "domain_rule_fallback", "domain_rule_none", "deletions_matching_held_cookie"}
 	for _, k := range need {
